@@ -9,7 +9,7 @@ import time as _time
 import crosshair.core as _cc
 from crosshair.core_and_libs import analyze_function, AnalysisKind  # noqa: F401 (loads libimpl)
 from crosshair.libimpl import builtinslib as _bl
-from crosshair.tracers import NoTracing, ResumedTracing
+from crosshair.tracers import NoTracing, ResumedTracing, is_tracing as _is_tracing
 import z3 as _z3
 
 from vp.shims_list import SHIMS  # noqa: F401
@@ -83,7 +83,12 @@ class LazyStr(_bl.AnySymbolicStr, _cc.CrossHairValue):
 
     def _f(self):
         if self._v is None:
-            self._v = self._thunk()
+            if _is_tracing():
+                self._v = self._thunk()
+            else:
+                # forced from inside a CrossHair intercept (e.g. f-string assembly): resume tracing for the repr
+                with ResumedTracing():
+                    self._v = self._thunk()
         return self._v
 
     def __ch_realize__(self):
@@ -114,10 +119,11 @@ class LazyStr(_bl.AnySymbolicStr, _cc.CrossHairValue):
         return o in self._f()
 
     def __add__(self, o):
-        return self._f() + o
+        # stays lazy: f-strings are assembled by a CrossHair intercept that runs with tracing off
+        return LazyStr(lambda: self._f() + (o._f() if isinstance(o, LazyStr) else o))
 
     def __radd__(self, o):
-        return o + self._f()
+        return LazyStr(lambda: (o._f() if isinstance(o, LazyStr) else o) + self._f())
 
     def __iter__(self):
         return iter(self._f())
